@@ -10,9 +10,12 @@ L1 (in-process, catch_unwind + watchdog; outcomes line / PANIC / HANG / CRASH):
       (a wordless stage must be REJECTED: E(EEmpty)).
   L1b `hl`/`ws`/`misc`: highlighter ranges, escaped_word_start, is_arithmetic on every string up
       to length 4 (thorough 5) over the 12-symbol multi-byte alphabet HL12 and on the L1a strings.
+  L1d token lists (every untagged list of <= 4 tokens over `< <<< > >> 2>&1 a | &`, quoted mixes, random longer) into
+      tokens_to_redirections / Command::from_tokens, and the same words as lines with blanks + multi-byte text
+      around pipes through the `line` op.
   L1c `hlr`: find_token_range_heuristic at ARBITRARY byte offsets (inside characters, past the
       end) and arbitrary tokens: the model's Panic must coincide with the implementation's.
-L2 (real binary, watchdog): A14 strings up to length 2 + 900 of length 3 (thorough: all up to 4) and grammar/mutation
+L2 (real binary, watchdog): A14 strings up to length 2 + 1500 of length 3 (thorough: all up to 4) and grammar/mutation
       generated lines up to 200 chars with multi-byte text, each through `cicada -c <line>` and as
       a two-line script <line> / <sentinel>: no crash status (101/134/139/signal), no timeout,
       no panic message, the sentinel line still runs.
@@ -266,6 +269,59 @@ def layer1c(ctx, res, vv):
     res.extra["l1c_model_panics_matched"] = npanic
 
 
+TOKWORDS = ["<", "<<<", ">", ">>", "2>&1", "a", "|", "&"]
+
+
+def layer1d(ctx, res, vv):
+    """token lists straight into tokens_to_redirections / Command::from_tokens (the `<` / `<<<` removal loop with its
+    running length, the to-be-continued state of `>`), and the same words as LINES with blanks through the whole pipeline"""
+    rng = ctx.rng
+    model, impl = ctx.model["C05"], ctx.bins["c05"]
+    syms = [(tg, w) for w in TOKWORDS for tg in ("", "'")]
+    lists = []
+    for n in range(0, 5):                                  # every untagged list up to 4 tokens (4,681)
+        lists += [[("", w) for w in t] for t in itertools.product(TOKWORDS, repeat=n)]
+    for n in range(1, (4 if ctx.thorough else 3) + 1):     # with quoted tokens mixed in
+        lists += [list(t) for t in itertools.product(syms, repeat=n) if any(tg for tg, _ in t)]
+    for _ in range(20000 if ctx.thorough else 4000):
+        lists.append([rng.choice(syms) for _ in range(rng.randint(4, 7))])
+    cases = []
+    for l in lists:
+        fl = "\t".join(C.enc(x) for t in l for x in t)
+        cases.append("fromtok\t" + fl)
+        cases.append("redir\t" + fl)
+    p = C.write_cases("c05_toklists.txt", cases)
+    mo, io = C.run_model(model, p), C.run_impl(impl, p, len(cases))
+    for c, a, b in zip(cases, mo, io):
+        if a == b:
+            if a.startswith("C(") and "from=(" in a:
+                res.nontrivial("fromtok:" + c[:60])
+            continue
+        fs = [C.dec(x) for x in c.split("\t")[1:]]
+        shown = " ".join(("%s%s%s" % (fs[i], fs[i + 1], fs[i])) for i in range(0, len(fs) - 1, 2))   # quoted tokens shown quoted
+        if b in ("PANIC", "HANG", "CRASH", "NOT-RUN") or "OUT-OF-FUEL" in a:
+            vv.violate("L1d", kind="oracle", function=c.split("\t")[0], input="token list: " + shown, model=a,
+                       observed=b, failing_input=True,
+                       note="Command::from_tokens / tokens_to_redirections %s on this token list; the model (theorems "
+                            "C05_from_tokens_total, structural redirection parser) cannot" % b)
+        else:
+            vv.violate("L1d", kind="correspondence", function=c.split("\t")[0], input="token list: " + shown, model=a, impl=b,
+                       failing_input=False, note="redirection parser / from_tokens differs from Model/Redirect.v")
+    res.count("L1d_token_lists", len(cases))
+    # the same words as lines (tokenizer in the loop), and multi-byte text around pipes
+    lines = []
+    for l in lists[:4681] + [x for x in lists[4681:] if len(x) <= 3]:
+        lines.append(" ".join(("'%s'" % w) if tg else w for tg, w in l))
+    mb = ["数据库", "é", "|", "||", "a", "'数 据'", "€", ">"]
+    for n in range(1, 4):
+        for t in itertools.product(mb, repeat=n):
+            lines.append(" ".join(t))
+            lines.append("".join(t))
+    lines += ["echo 数据库 | wc -l", "echo 数据库|wc", "数|据", "€|", "é||a", "cat < in.txt <<<", "cat <<< x < in.txt", "a < b <<<"]
+    lines = sorted(set(lines))
+    layer1a(ctx, res, vv, lines, "TOK")
+
+
 # ------------------------------------------------------------------ L2
 WORDS = ["echo", "true", "false", "a", "b", "cd", "export", "alias", "unalias", "set", "unset", "jobs", "x=1", "A=b",
          "$A", "${A}", "$?", "$$", "~", "*", "?", "[a]", "{a,b}", "{1..3}", "'q r'", '"q $A r"', "`echo a`", "$(echo a)",
@@ -358,22 +414,28 @@ def layer2(ctx, res, vv, work):
     if ctx.thorough:
         short = all_strings(A14, 4)
     else:   # quick: every string up to 2 and a seeded third of those of length 3 (two process spawns per line)
-        short = all_strings(A14, 2) + ctx.rng.sample(["".join(t) for t in itertools.product(A14, repeat=3)], 900)
-    rnd = gen_l2_lines(ctx, 6000 if ctx.thorough else 500)
+        short = all_strings(A14, 2) + ctx.rng.sample(["".join(t) for t in itertools.product(A14, repeat=3)], 1500)
+    rnd = gen_l2_lines(ctx, 6000 if ctx.thorough else 600)
     corpus = ["> f", "< f", "2>&1", "echo a | > f", "a>b>c", "A=1 > f", "echo $(<)", "echo {2147483646..2147483647}",
               "99999999999999999999 + 1", "2 ^ 64", "A='$A'; echo $A", "echo \"a\n$HOME\"", "echo $(ls >)", "echo ${A",
               "echo `>`", "echo a | cat <<< x", "echo 'unbalanced", "echo \"unbalanced", "echo $(", "echo ((1)", "a && && b", "| a",
               "a ||| b", ";;", "& &", "echo a >", "echo a > > f", "echo 9999999999999999999", "1 +", "(1 + 2", "1 / 0", "ls 3>&9", "2 ^ -1", "2 ^ 4294967296",
               "(" * 20000 + "1" + ")" * 20000 + "+1"]
     lines = corpus + short + rnd
+    tt = {}
+    t1 = time.time()
     # mirror check of the class predicates
-    p = C.write_cases("c05_cls.txt", [C.case("cls", s) for s in lines])
-    for s, m in zip(lines, C.run_model(model, p)):
+    # (Coq's List.rev is quadratic once extracted: the 40,000-character corpus line is replaced here by the
+    # shortest member of its class)
+    clines = [s for s in lines if len(s) <= 2100] + ["(" * 1000 + "1" + ")" * 1000 + "+1", "(" * 999 + "1" + ")" * 999 + "+1"]
+    p = C.write_cases("c05_cls.txt", [C.case("cls", s) for s in clines])
+    for s, m in zip(clines, C.run_model(model, p)):
         if m != ",".join(known_foreign(s)):
             vv.violate("L2", kind="correspondence", function="known_foreign", input=s, model=m, impl=",".join(known_foreign(s)),
                        failing_input=False, note="drive/c05.py known_foreign is not the mirror of Model/C05Classes.v")
     # model prediction for the own class, from the implementation's in-process tokens
     pl = C.write_cases("c05_l2_line.txt", [C.case("line", s) for s in lines])
+    tt["cls"] = round(time.time() - t1, 1); t1 = time.time()
     # same surroundings as the real runs below: an empty current directory (globs), HOME = cwd
     cwd_pred = os.path.join(work, "cwd_l2_pred")
     os.makedirs(cwd_pred)
@@ -381,8 +443,11 @@ def layer2(ctx, res, vv, work):
     io = C.run_impl(impl, pl, len(lines), env={"HX_CASE_TIMEOUT_MS": "3000", "HOME": cwd_pred, "PATH": "/usr/bin:/bin"})
     io = confirm_abnormal(impl, lines, io, "line", "l2")
     os.chdir(work)
+    tt["inprocess"] = round(time.time() - t1, 1); t1 = time.time()
     with ThreadPoolExecutor(max_workers=C.NCPU) as ex:
         outs = list(ex.map(lambda a: run_l2_one(ctx, work, a[0], a[1]), enumerate(lines)))
+    tt["spawns"] = round(time.time() - t1, 1)
+    res.extra["l2_seconds"] = tt
     stats = {}
     for s, o, r in zip(lines, io, outs):
         j = judge_l2(s, r)
@@ -557,7 +622,7 @@ def layer3(ctx, res, vv, work):
             mode = "PANIC" if o["panic"] else "HANG"
             vv.foreign("L3", typed, mode, repr(o))
     # Enter + Ctrl-C race (three-way: class sigint-kills-shell)
-    n = 48 if ctx.thorough else 12
+    n = 48 if ctx.thorough else 6
     with ThreadPoolExecutor(max_workers=6) as ex:
         co = list(ex.map(lambda i: pty_ctrl_c(ctx, work, i), range(n)))
     died = [o for o in co if o["status"] is not None and os.WIFSIGNALED(o["status"]) and os.WTERMSIG(o["status"]) == 2]
@@ -606,7 +671,7 @@ def run(ctx, res):
         lb = all_strings(B14, n1 - 1)
         # random longer lines stay inside ONE alphabet: A14 can create files (`$(a > x)`), B14 can glob them; mixing
         # the two makes the result depend on what a parallel shard has just created in the shared scratch cwd
-        for _ in range(20000 if ctx.thorough else 3000):
+        for _ in range(20000 if ctx.thorough else 1000):
             al = rng.choice([A14, B14])
             (la if al is A14 else lb).append("".join(rng.choice(al) for _ in range(rng.randint(5, 12))))
         tm = {}
@@ -624,6 +689,12 @@ def run(ctx, res):
         tm["L1b"] = round(time.time() - t0, 1); t0 = time.time()
         layer1c(ctx, res, vv)
         tm["L1c"] = round(time.time() - t0, 1); t0 = time.time()
+        cwd_d = os.path.join(work, "cwd_tok")
+        os.makedirs(cwd_d)
+        os.chdir(cwd_d)
+        layer1d(ctx, res, vv)
+        os.chdir(work)
+        tm["L1d"] = round(time.time() - t0, 1); t0 = time.time()
         for k, v in env0.items():
             if v is not None:
                 os.environ[k] = v
